@@ -103,7 +103,11 @@ def run(ctx):
     import core
     w1 = core.Filtered(rep, lambda rule, anchor, instance: rule == "W1")
     rep.guarded("W1", "anstream::strip::write", lambda: stripstream.rule_W1_W3(facts, w1))
-    for r, n in (("table", 16), ("keep", 17), ("S1", 7), ("S2", 8), ("S3", 3), ("S4", 3), ("S5", 12), ("S6", 5), ("between-slices", 1), ("reach", 18), ("W1", 4)):
+    # ... and only if no run of visible text is dropped on the way: a piece the inner writer refused must end the call with its error
+    # (an Err arm that `continue`s to the next piece loses the text and still reports the buffer as written)
+    w4 = core.Filtered(rep, lambda rule, anchor, instance: rule == "W4" and instance == "write:Err-arm-leaves")
+    rep.guarded("W4", "anstream::strip::write", lambda: stripstream.rule_W2(facts, w4))
+    for r, n in (("table", 16), ("keep", 17), ("S1", 7), ("S2", 8), ("S3", 3), ("S4", 3), ("S5", 12), ("S6", 5), ("between-slices", 1), ("reach", 18), ("W1", 4), ("W4", 1)):
         rep.floor(r, n)
 
 
